@@ -155,6 +155,11 @@ pub fn initial_states_d(t: Tier, with_big: bool) -> Vec<(Init, usize)> {
     // its own owner (owner zone occurs nowhere earlier)
     msgs.push(r(vec![a_rec(&ba, 60, [1, 2, 3, 4])], vec![name_rec(&nm("x.y.other"), T_NS, 3, &nm("ns.y.other"))], vec![]));
     msgs.push(r(vec![mx_rec(&nm("m.x.y.other"), 4, 10, &nm("mail.y.other"))], vec![], vec![]));
+    // an RRset: an owner unrelated to the question written out once, then named by bare pointers
+    {
+        let xy = nm("x.y");
+        msgs.push(r(vec![a_rec(&xy, 300, [10, 0, 0, 1]), a_rec(&xy, 301, [10, 0, 0, 2]), name_rec(&xy, T_NS, 302, &nm("ns.x.y"))], vec![], vec![a_rec(&nm("ns.x.y"), 304, [10, 0, 0, 3]), opt[1].clone()]));
+    }
     let d2_to = msgs.len();
     let mut q = base_msg(&ba, T_A, false);
     q.ar.push(opt[0].clone());
